@@ -74,6 +74,70 @@ def format_path(path_ops, extra=None):
     return txt
 
 
+_PHRASES = ["must be equal to", "must be greater than or equal to", "must be less than or equal to",
+            "must have exactly", "must have at least", "must have at most", "must contain only", "must contain",
+            "must match pattern", "must match any of", "must be a UUID version", "must be",
+            "contains extra element at index", "contains extra key", "does not exist"]
+
+
+def parse_path_text(text, root):
+    """`_['a'][0]...` at the start of text -> abstract path (walking root to tell keys from
+    indexes); None when it cannot be read back"""
+    import ast
+    if not text.startswith("_"):
+        return None
+    i = 1
+    operands = []
+    while i < len(text) and text[i] == "[":
+        found = None
+        for j in range(i + 1, len(text)):
+            if text[j] == "]":
+                try:
+                    found = (ast.literal_eval(text[i + 1:j]), j)
+                    break
+                except (ValueError, SyntaxError, MemoryError, RecursionError):
+                    continue
+        if found is None:
+            return None
+        operands.append(found[0])
+        i = found[1] + 1
+
+    class _Op:
+        def __init__(self, operand):
+            self.operand = operand
+    _Op.__name__ = "ItemAccessor"
+    try:
+        return am.a_path([_Op(o) for o in operands], root)
+    except am.Unrepresentable:
+        return None
+
+
+def message_shape(msg, root):
+    """what the rendered text says about itself: noun, stating phrase, whether it uses ` at `,
+    and the path read back from the text"""
+    out = {"noun": msg.split(" ", 1)[0].rstrip(":") if msg else "", "phrase": "", "has_at": False, "path": [],
+           "parsed": False}
+    if out["noun"].startswith("Value"):
+        out["noun"] = "Value"
+    for ph in _PHRASES:
+        if ph in msg:
+            out["phrase"] = ph
+            break
+    head = msg.split(out["phrase"])[0] if out["phrase"] else msg
+    path_text = None
+    if out["noun"] in ("Element", "Key"):
+        path_text = msg[len(out["noun"]) + 1:]
+    elif " at _" in head:
+        out["has_at"] = True
+        path_text = head[head.rindex(" at _") + 4:]
+    if path_text is not None:
+        p = parse_path_text(path_text, root)
+        if p is not None:
+            out["path"] = p
+            out["parsed"] = True
+    return out
+
+
 def observe_validate(real, v_real):
     """the real validate() on one value: everything Trace_Val needs"""
     import d42
@@ -101,7 +165,8 @@ def observe_validate(real, v_real):
             ev["errs"].append(am.a_error(err, v_real))
         except am.Unrepresentable:
             ev["rep"] = False
-        fact = {"nonempty": False, "names_path": False, "located": False}
+        fact = {"nonempty": False, "names_path": False, "located": False,
+                "msg": {"noun": "", "phrase": "", "has_at": False, "path": [], "parsed": False}}
         try:
             msg = err.format(fmt)
             fact["nonempty"] = isinstance(msg, str) and len(msg.strip()) > 0
@@ -112,6 +177,7 @@ def observe_validate(real, v_real):
             elif isinstance(err, E.MissingKeyValidationError):
                 extra = (err.missing_key,)
             fact["names_path"] = (len(ops) == 0 and extra is None) or (format_path(ops, extra) in msg)
+            fact["msg"] = message_shape(msg, v_real)
         except Exception:
             pass
         try:
